@@ -536,7 +536,7 @@ CircuitSpec smallOther(Rng &r) {
 
 // Utilisation > 100 % / impossible polarity: infeasible legalization as a fault
 void makeInfeasible(Rng &r, CircuitSpec &s, int H) {
-  int mode = (int)r.below(3);
+  int mode = (int)r.below(5);
   auto widen = [](CellSpec &k, long long f) {
     long long w = (long long)k.w * f;
     // stay inside the supported magnitude range (|v| <= 2^22, area < 2^31)
@@ -555,6 +555,35 @@ void makeInfeasible(Rng &r, CircuitSpec &s, int H) {
         if ((widest + 1) * std::max(1, k.h) < (1LL << 31)) k.w = (int)(widest + 1);
         break;
       }
+  } else if (mode == 3) {
+    // a movable cell lower than a row (or of no height at all): neither
+    // legalization stage can take it
+    std::vector<int> mov;
+    for (int i = 0; i < (int)s.cells.size(); ++i)
+      if (!s.cells[i].fixed && !Snapshot::isTurned(s.cells[i].orient)) mov.push_back(i);
+    if (!mov.empty()) {
+      CellSpec &k = s.cells[mov[r.below(mov.size())]];
+      k.h = (H >= 2 && r.chance(0.7)) ? (int)r.range(1, H - 1) : 0;
+    }
+  } else if (mode == 4) {
+    // every row completely covered by a fixed obstruction: no free space at all
+    if (!s.rows.empty()) {
+      long long x0 = s.rows[0].minX, x1 = s.rows[0].maxX, y0 = s.rows[0].minY, y1 = s.rows[0].maxY;
+      for (auto &rw : s.rows) {
+        x0 = std::min<long long>(x0, rw.minX);
+        x1 = std::max<long long>(x1, rw.maxX);
+        y0 = std::min<long long>(y0, rw.minY);
+        y1 = std::max<long long>(y1, rw.maxY);
+      }
+      CellSpec k;
+      k.fixed = 1;
+      k.obs = 1;
+      k.x = (int)(x0 - (r.chance(0.5) ? 0 : H));
+      k.y = (int)(y0 - (r.chance(0.5) ? 0 : H));
+      k.w = (int)(x1 - k.x + (r.chance(0.5) ? 0 : H));
+      k.h = (int)(y1 - k.y + (r.chance(0.5) ? 0 : H));
+      if ((long long)k.w * k.h < (1LL << 31)) s.cells.push_back(k);
+    }
   } else {
     // polarity that no row admits
     bool hasNW = false, hasSE = false;
@@ -703,7 +732,7 @@ Plan genCrash(const std::string &profile, uint64_t seed, int tier) {
   cfg.bigScale = rc.chance(0.5);
   cfg.c06Domain = true;
   // degenerate shapes of the C07 quantifier
-  int shape = (int)rc.below(8);
+  int shape = (int)rc.below(9);
   if (shape == 0) cfg.maxLevels = 1;
   if (shape == 1) cfg.maxCells = 1;
   if (shape == 2) cfg.nets = false;
@@ -730,7 +759,7 @@ Plan genCrash(const std::string &profile, uint64_t seed, int tier) {
       k.fixed = 1;
     }
   }
-  if (shape == 6) makeInfeasible(ro, p.circuit, b.H);
+  if (shape == 6 || shape == 8) makeInfeasible(ro, p.circuit, b.H);
   bool reord = ro.chance(0.3);
   int nOps = (int)ro.range(1, 3);
   for (int i = 0; i < nOps; ++i) {
